@@ -221,6 +221,21 @@ func c11Sibling(p *chk.Prog, r *chk.Report) {
 	ip := rangeVal(un, rs)
 	v6 := ug.GPat(true, "IP.To4() == nil", chk.H("IP", ip))
 	v4 := ug.GPat(false, "IP.To4() == nil", chk.H("IP", ip))
+	// one user fewer: `m[pool][ip]--`, or, for the last user, the entry deleted outright behind `m[pool][ip] == 1`
+	lastUserDeletes := map[string]map[ast.Node]bool{}
+	for _, m := range []string{"poolIPsInUse", "poolIPV4InUse", "poolIPV6InUse"} {
+		lastUserDeletes[m] = map[ast.Node]bool{}
+		one := ug.GPat(true, "RECV."+m+"[AL.pool][IP.String()] == 1", chk.H("IP", ip), chk.H("AL", ual))
+		for _, s := range ug.FindPat("delete(RECV."+m+"[AL.pool], IP.String())", chk.H("IP", ip), chk.H("AL", ual)) {
+			if ug.Dominated(s, one) {
+				lastUserDeletes[m][s.Top] = true
+			}
+		}
+	}
+	oneFewer := func(m string) func(ast.Node) bool {
+		dec := isIncDec(un, "RECV."+m+"[AL.pool][IP.String()]", token.DEC, chk.H("IP", ip), chk.H("AL", ual))
+		return func(n ast.Node) bool { return dec(n) || lastUserDeletes[m][n] }
+	}
 	must := []struct {
 		name   string
 		stmt   func(ast.Node) bool
@@ -230,9 +245,9 @@ func c11Sibling(p *chk.Prog, r *chk.Report) {
 			return un.ContainsPat("delete(RECV.servicesOnIP[IP.String()], S)", chk.H("IP", ip), chk.H("S", usvc))(n) ||
 				un.ContainsPat("RECV.servicesOnIP[IP.String()].Delete(S)", chk.H("IP", ip), chk.H("S", usvc))(n)
 		}, chk.NoGuard},
-		{"in-use", isIncDec(un, "RECV.poolIPsInUse[AL.pool][IP.String()]", token.DEC, chk.H("IP", ip), chk.H("AL", ual)), chk.NoGuard},
-		{"in-use-v6", isIncDec(un, "RECV.poolIPV6InUse[AL.pool][IP.String()]", token.DEC, chk.H("IP", ip), chk.H("AL", ual)), v4},
-		{"in-use-v4", isIncDec(un, "RECV.poolIPV4InUse[AL.pool][IP.String()]", token.DEC, chk.H("IP", ip), chk.H("AL", ual)), v6},
+		{"in-use", oneFewer("poolIPsInUse"), chk.NoGuard},
+		{"in-use-v6", oneFewer("poolIPV6InUse"), v4},
+		{"in-use-v4", oneFewer("poolIPV4InUse"), v6},
 	}
 	for _, m := range must {
 		x.Check("Unassign:every-address:"+m.name, rs.Pos(), !loopSkipsWithout(ug, rs, m.stmt, m.except) && !loopHasBreak(ug, rs), "", "Unassign can release an address without cleaning "+m.name+" (ghost reservation / wrong count; also when the pool no longer exists)")
@@ -257,7 +272,7 @@ func c11Sibling(p *chk.Prog, r *chk.Report) {
 	for _, m := range []string{"poolIPsInUse", "poolIPV4InUse", "poolIPV6InUse"} {
 		zero := ug.GPat(true, "RECV."+m+"[AL.pool][IP.String()] == 0", chk.H("IP", ip), chk.H("AL", ual))
 		es := ug.EdgesImplying(zero)
-		ok := len(es) >= 1
+		ok := true
 		conds := map[ast.Node]bool{}
 		for _, e := range es {
 			// the zero branch always deletes the entry
@@ -272,7 +287,25 @@ func c11Sibling(p *chk.Prog, r *chk.Report) {
 		if len(decs) == 0 {
 			ok = false
 		}
+		notLast := ug.GPat(false, "RECV."+m+"[AL.pool][IP.String()] == 1", chk.H("IP", ip), chk.H("AL", ual))
 		for _, s := range decs {
+			if ug.Dominated(s, notLast) {
+				// the entry is decremented only when it had more than one user; the last user's branch deletes it
+				lastOK := false
+				for _, e := range ug.EdgesImplying(ug.GPat(true, "RECV."+m+"[AL.pool][IP.String()] == 1", chk.H("IP", ip), chk.H("AL", ual))) {
+					lastOK = true
+					if ug.BranchAlways(e, un.ContainsPat("delete(RECV."+m+"[AL.pool], IP.String())", chk.H("IP", ip), chk.H("AL", ual))).Found {
+						ok = false
+					}
+				}
+				if !lastOK {
+					ok = false
+				}
+				continue
+			}
+			if len(es) == 0 {
+				ok = false
+			}
 			w := ug.MustPass(s, func(n ast.Node) bool { return n == ast.Node(rs.Key) || n == ast.Node(rs.Value) || n == ast.Node(rs.X) }, true,
 				func(n ast.Node) bool { return conds[n] })
 			if w.Found {
